@@ -143,8 +143,18 @@ fn render_expr(e: &RawExpr, cx: &mut ExprCtx) -> String {
         RawExpr::Call(k, args) => {
             let k = *k as usize % FN_SYMBOLS.len();
             let (name, arity) = FN_SYMBOLS[k];
+            // without regulators: the zero-arity symbol, or a symbol applied to constants
+            if cx.regs.is_empty() && k == 3 {
+                if !cx.used_fns[k] {
+                    if *cx.budget < 2 {
+                        return "false".to_string();
+                    }
+                    *cx.budget -= 2;
+                    cx.used_fns[k] = true;
+                }
+                return format!("{name}({})", if args.len() % 2 == 0 { "true" } else { "false" });
+            }
             let arity = if cx.regs.is_empty() { 0 } else { arity };
-            // without regulators only the zero-arity symbol can be applied
             let (k, name, arity) = if arity == 0 { (2, "h", 0) } else { (k, name, arity) };
             if !cx.used_fns[k] {
                 if *cx.budget < (1 << arity) {
